@@ -102,7 +102,63 @@ pub fn gen_cases(cfg: &RunCfg) -> Vec<Case> {
             }
         }
     }
+    cases.extend(distance_family());
     cases
+}
+
+/// How far the failing line lies from the place the error context starts is varied systematically: 0..24 well-formed
+/// assignments or 0..24 comment lines before the malformed definition, a malformed definition of 1..24 lines with
+/// the impossible character on its first / middle / last line (incl. in a DEFAULT value), LF and CRLF.
+fn distance_family() -> Vec<Case> {
+    let mut out = Vec::new();
+    let mut k = 0usize;
+    for crlf in [false, true] {
+        for before in [0usize, 1, 3, 7, 8, 9, 10, 14, 24] {
+            for filler in 0..2 {
+                for members in [1usize, 2, 6, 9, 14, 24] {
+                    for at in 0..3 {
+                        let mut text = String::from("Dist-Mod DEFINITIONS AUTOMATIC TAGS ::= BEGIN\nFirst ::= INTEGER\n");
+                        for i in 0..before {
+                            if filler == 0 {
+                                text.push_str(&format!("T{i} ::= INTEGER (0..{i})\n"));
+                            } else {
+                                text.push_str(&format!("-- remark {i}\n"));
+                            }
+                        }
+                        let lower = text.len();
+                        text.push_str("Bad ::= SEQUENCE {\n");
+                        let bad_line = match at { 0 => 0, 1 => members / 2, _ => members - 1 };
+                        let mut upper = 0;
+                        for m in 0..members {
+                            text.push_str(&format!("    m{m:02} "));
+                            if m == bad_line && k % 2 == 0 {
+                                upper = text.len();
+                                text.push('§');
+                            }
+                            text.push_str("INTEGER (0..255) DEFAULT ");
+                            if m == bad_line && k % 2 == 1 {
+                                upper = text.len();
+                                text.push('§');
+                            } else {
+                                text.push('5');
+                            }
+                            text.push_str(if m + 1 < members { ",\n" } else { "\n" });
+                        }
+                        text.push_str("}\nAfter ::= BOOLEAN\nEND\n");
+                        let (text, lower, upper) = if crlf {
+                            let conv = |pos: usize| pos + text[..pos].matches('\n').count();
+                            (text.replace('\n', "\r\n"), conv(lower), conv(upper))
+                        } else {
+                            (text, lower, upper)
+                        };
+                        out.push(Case { text, lower, upper: Some(upper), what: format!("distance: {before} {} before, {members} members, impossible character on member line {bad_line}", if filler == 0 { "assignments" } else { "comment lines" }), as_file: k % 5 == 0 });
+                        k += 1;
+                    }
+                }
+            }
+        }
+    }
+    out
 }
 
 struct Obs {
@@ -176,7 +232,7 @@ fn observe(c: &Case, path: &std::path::Path) -> Result<Option<Obs>, String> {
 pub fn run(cfg: &RunCfg) -> Report {
     let mut rep = Report::new(
         "C17",
-        "module sets (1..3 modules in one source, 1..30 assignments each, LF and CRLF, three comment forms) with one corruption each: token deleted / replaced / a token inserted / a character that starts no ASN.1 token inserted; exhaustive over regions × token positions × corruption kinds for the ten smallest sets, seeded random for the rest; every fourth case is compiled from a file path. Oracle (Lean, on the real ReportData): offset inside the input, line = 1 + line breaks before the offset, offset not before the first token of the malformed definition and not after an inserted impossible character, Display / contextualize / ReportData show the same line, path reported iff file source. Plus the Input::slice hook run against the Lean model on random nested slice sequences",
+        "[plus a systematic family: 0..24 assignments / comment lines before a malformed definition of 1..24 lines, impossible character on its first / middle / last line] module sets (1..3 modules in one source, 1..30 assignments each, LF and CRLF, three comment forms) with one corruption each: token deleted / replaced / a token inserted / a character that starts no ASN.1 token inserted; exhaustive over regions × token positions × corruption kinds for the ten smallest sets, seeded random for the rest; every fourth case is compiled from a file path. Oracle (Lean, on the real ReportData): offset inside the input, line = 1 + line breaks before the offset, offset not before the first token of the malformed definition and not after an inserted impossible character, Display / contextualize / ReportData show the same line, path reported iff file source. Plus the Input::slice hook run against the Lean model on random nested slice sequences",
     );
     let scratch = verif_root().join(".scratch");
     let _ = std::fs::create_dir_all(&scratch);
